@@ -543,7 +543,14 @@ func init() {
 				structCover("groups", fam.Groups, deferBoth, false, 10, 40, 2, 0),
 				digraphCover("digraphs-grp", "grp", deferBoth, 60, 800),
 			},
-			traces: pairTraces("orders", tweak(medium, func(f *fam.Features) { f.PInvalid = 0.5 }), deferBoth, []string{"perm", "perm", "scope-early", "scope-late", "defer"}, 25, 300)})})
+			traces: pairTraces("orders", tweak(medium, func(f *fam.Features) { f.PInvalid = 0.5 }), deferBoth, []string{"perm", "perm", "scope-early", "scope-late", "defer"}, 25, 300),
+			extra: func(rep *Report, def *propDef) {
+				cats := fam.RandomFamily(rep.Seed*31+5, scale(rep.Tier, 40, 400), withOpts(small, rec))
+				cats = append(cats, fam.Digraphs(3, []int{7, 42, 73, 146, 273, 292, 311, 438, 511}, func(g, i int) fam.Place {
+					return fam.Place{Scope: []string{"r", "a", "b"}[(g+i)%3]}
+				}, "req", rec, map[string]string{"r": "", "a": "r", "b": "a"})...)
+				pairSpecStage(rep, "defer", cats, 2)
+			}})})
 
 	register(&propDef{id: "C17",
 		projection: "executions in a DryRun container (none), verdict classes of every operation",
@@ -559,6 +566,10 @@ func init() {
 			traces: func(tier string) []tracePlan {
 				return append(stdTraces("dry", medium, 0, []cat.Opts{{Recover: true, Dry: true}, {Dry: true}, {Dry: true, Defer: true}})(tier),
 					pairTraces("dry", medium, []cat.Opts{{Recover: true}, {Recover: true, Defer: true}}, []string{"dry"}, 40, 400)(tier)...)
+			},
+			extra: func(rep *Report, def *propDef) {
+				cats := fam.RandomFamily(rep.Seed*31+5, scale(rep.Tier, 40, 400), withOpts(tweak(small, func(f *fam.Features) { f.PReenter = 0.03 }), []cat.Opts{{Recover: true}, {Recover: true, Defer: true}}))
+				pairSpecStage(rep, "dry", cats, 2)
 			}})})
 
 	register(&propDef{id: "C18",
